@@ -1,147 +1,12 @@
 /-
-Helper lemmas for `Value::from_float` (`Value.fromFloat`): exactness of `floor`, of the
-subtraction `f - floor f`, and the comparison against `f64::EPSILON`.
+Helper lemmas for `Value::from_float` (`Value.fromFloat`) and for the exactness of `floor` and of
+`f - floor f` in the binary64 model.
 -/
 import AgProofs.Lemmas.ValueOrder
+import AgProofs.Lemmas.F64Add
 
 namespace Ag
 namespace F64
-
-/-! ### `SameVal` at a shifted scale -/
-
-theorem sameVal_shift {n m : Nat} {K E e : Int} (hK : K ≤ E) :
-    SameVal (n * pow2 (E - K)) K m e ↔ SameVal n E m e := by
-  unfold SameVal
-  by_cases h1 : e ≤ K
-  · rw [pow2_of_nonpos (by omega : e - K ≤ 0), pow2_of_nonpos (by omega : e - E ≤ 0),
-      pow2_sub_split h1 hK, Nat.mul_assoc]
-  · by_cases h2 : e ≤ E
-    · rw [pow2_of_nonpos (by omega : K - e ≤ 0), pow2_of_nonpos (by omega : e - E ≤ 0),
-        pow2_sub_split (by omega : K ≤ e) h2, Nat.mul_one, Nat.mul_one, ← Nat.mul_assoc]
-      exact Nat.mul_left_inj (Nat.pos_iff_ne_zero.1 (pow2_pos _))
-    · rw [pow2_of_nonpos (by omega : K - e ≤ 0), pow2_of_nonpos (by omega : E - e ≤ 0),
-        pow2_sub_split hK (by omega : E ≤ e), Nat.mul_one, Nat.mul_one, ← Nat.mul_assoc]
-      exact Nat.mul_left_inj (Nat.pos_iff_ne_zero.1 (pow2_pos _))
-
-/-- every `n < 2^53` at a scale `eMin ≤ sc ≤ eMax` is a double -/
-theorem representable_small (s : Bool) {n : Nat} {sc : Int} (hn : n ≠ 0) (h : n < two53)
-    (h1 : eMin ≤ sc) (h2 : sc ≤ eMax) : ∃ m e, Canon (fin s m e) ∧ SameVal n sc m e := by
-  obtain ⟨hc, hv⟩ := norm_spec hn h s
-  rw [canon_fin] at hc
-  by_cases hlow : eMin ≤ normE n + sc
-  · refine ⟨normM n, normE n + sc, ?_, ?_⟩
-    · rw [canon_fin]
-      refine ⟨hc.1, hlow, ?_, ?_⟩
-      · have : normE n ≤ 0 := by
-          have := hc.2.2.1; simp only [normE, eMax] at *
-          have hL : n.log2 < 53 := (Nat.log2_lt hn).2 (by rw [← two53_eq]; exact h)
-          omega
-        omega
-      · intro hlt
-        have := hc.2.2.2 hlt
-        simp only [normE, eMin] at this; omega
-    · unfold SameVal at hv ⊢
-      have e1 : sc - (normE n + sc) = 0 - normE n := by omega
-      have e2 : normE n + sc - sc = normE n - 0 := by omega
-      rw [e1, e2, hv]
-  · refine ⟨n * pow2 (sc - eMin), eMin, ?_, ?_⟩
-    · have hL1 : n < 2 ^ (n.log2 + 1) := Nat.lt_log2_self
-      obtain ⟨dd, hdd⟩ : ∃ dd : Nat, sc - eMin = dd := ⟨(sc - eMin).toNat, by omega⟩
-      have hlt : n * pow2 (sc - eMin) < two52 := by
-        rw [hdd, pow2_natCast, two52_eq]
-        have hle : n.log2 + 1 + dd ≤ 52 := by simp only [normE] at hlow; omega
-        calc n * 2 ^ dd < 2 ^ (n.log2 + 1) * 2 ^ dd :=
-              Nat.mul_lt_mul_of_pos_right hL1 (Nat.two_pow_pos _)
-          _ = 2 ^ (n.log2 + 1 + dd) := (Nat.pow_add ..).symm
-          _ ≤ 2 ^ 52 := Nat.pow_le_pow_right (by decide) hle
-      rw [canon_fin]
-      refine ⟨?_, Int.le_refl _, by decide, fun _ => rfl⟩
-      have : two52 < two53 := by decide
-      omega
-    · unfold SameVal
-      rw [pow2_of_nonpos (by omega : eMin - sc ≤ 0), Nat.mul_one]
-
-/-! ### `roundInt` in terms of exact values -/
-
-theorem hasVal_zero (z : Bool) (K : Int) : HasVal (fin z 0 eMin) 0 K := by
-  rw [hasVal_fin, smant_zero]; simp
-
-/-- rounding `k·2^E` when that value is a double: the result has exactly that value (stated at
-any scale `K ≤ E` with `K ≤` every canonical exponent, i.e. `K ≤ eMin`) -/
-theorem roundInt_hasVal {k E K : Int} (z : Bool) (hK : K ≤ E) (hKm : K ≤ eMin)
-    (hrep : k ≠ 0 → ∃ m e, Canon (fin (decide (k < 0)) m e) ∧
-      SameVal (k.natAbs * pow2 (E - K)) K m e) :
-    ∃ sR mR eR, roundInt k E z = fin sR mR eR ∧ Canon (fin sR mR eR) ∧
-      HasVal (fin sR mR eR) (k * (pow2 (E - K) : Nat)) K := by
-  by_cases hk : k = 0
-  · subst hk
-    refine ⟨z, 0, eMin, by simp [roundInt], by rw [canon_fin]; decide, ?_⟩
-    simpa using hasVal_zero z K
-  · obtain ⟨m, e, hc, hv⟩ := hrep hk
-    have hv' := (sameVal_shift hK).1 hv
-    refine ⟨_, m, e, roundInt_exact k E z m e hk hc hv', hc, ?_⟩
-    have he : K ≤ e := by rw [canon_fin] at hc; omega
-    unfold SameVal at hv
-    rw [pow2_of_nonpos (by omega : K - e ≤ 0), Nat.mul_one] at hv
-    rw [hasVal_fin, pow2_of_nonpos (by omega : K - e ≤ 0), ← smant_mul, ← hv, smant_mul,
-      smant_of_int]
-    simp
-
-/-! ### `add` in terms of exact values (scale `eMin`) -/
-
-theorem hasVal_eMin_scaled {s : Bool} {m : Nat} {e k E : Int} (h : HasVal (fin s m e) k eMin)
-    (hE : eMin ≤ E) (hEe : E ≤ e) : scaled E s m e * (pow2 (E - eMin) : Nat) = k := by
-  have := hasVal_scaled h (by omega : eMin ≤ e) (Int.le_refl _)
-  rw [Int.sub_self, pow2_zero] at this
-  simp only [Int.natCast_one, Int.mul_one] at this
-  rw [← this]
-  unfold scaled
-  rw [pow2_sub_split hE hEe, Int.natCast_mul, Int.mul_assoc]
-
-theorem add_hasVal {s1 s2 : Bool} {m1 m2 : Nat} {e1 e2 ka kb : Int}
-    (h1 : eMin ≤ e1) (h2 : eMin ≤ e2)
-    (ha : HasVal (fin s1 m1 e1) ka eMin) (hb : HasVal (fin s2 m2 e2) kb eMin)
-    (hrep : ka + kb ≠ 0 → ∃ m e, Canon (fin (decide (ka + kb < 0)) m e) ∧
-      SameVal (ka + kb).natAbs eMin m e) :
-    ∃ sR mR eR, add (fin s1 m1 e1) (fin s2 m2 e2) = fin sR mR eR ∧ Canon (fin sR mR eR) ∧
-      HasVal (fin sR mR eR) (ka + kb) eMin := by
-  have hE : eMin ≤ min e1 e2 := by omega
-  have e1' := hasVal_eMin_scaled ha hE (by omega)
-  have e2' := hasVal_eMin_scaled hb hE (by omega)
-  have hsum : (scaled (min e1 e2) s1 m1 e1 + scaled (min e1 e2) s2 m2 e2) *
-      (pow2 (min e1 e2 - eMin) : Nat) = ka + kb := by
-    rw [Int.add_mul, e1', e2']
-  have hadd : add (fin s1 m1 e1) (fin s2 m2 e2) =
-      roundInt (scaled (min e1 e2) s1 m1 e1 + scaled (min e1 e2) s2 m2 e2) (min e1 e2)
-        (s1 && s2) := rfl
-  rw [hadd]
-  have hpos : (0 : Int) < (pow2 (min e1 e2 - eMin) : Nat) := by
-    have := pow2_pos (min e1 e2 - eMin); omega
-  have := roundInt_hasVal (k := scaled (min e1 e2) s1 m1 e1 + scaled (min e1 e2) s2 m2 e2)
-    (E := min e1 e2) (K := eMin) (s1 && s2) hE (Int.le_refl _) (by
-      intro hk
-      have hne : ka + kb ≠ 0 := by
-        rw [← hsum]; exact Int.mul_ne_zero hk (by omega)
-      obtain ⟨m, e, hc, hv⟩ := hrep hne
-      refine ⟨m, e, ?_, ?_⟩
-      · have : decide (scaled (min e1 e2) s1 m1 e1 + scaled (min e1 e2) s2 m2 e2 < 0) =
-            decide (ka + kb < 0) := by
-          rw [← hsum]
-          congr 1
-          exact propext ⟨fun h => Int.mul_neg_of_neg_of_pos h hpos,
-            fun h => by
-              rcases Int.lt_trichotomy (scaled (min e1 e2) s1 m1 e1 + scaled (min e1 e2) s2 m2 e2) 0
-                with h' | h' | h'
-              · exact h'
-              · rw [h'] at h; simp at h
-              · have := Int.mul_pos h' hpos; omega⟩
-        rw [this]; exact hc
-      · have : (scaled (min e1 e2) s1 m1 e1 + scaled (min e1 e2) s2 m2 e2).natAbs *
-            pow2 (min e1 e2 - eMin) = (ka + kb).natAbs := by
-          rw [← hsum, Int.natAbs_mul, Int.natAbs_natCast]
-        rw [this]; exact hv)
-  rw [hsum] at this
-  exact this
 
 /-! ### the fractional part -/
 
@@ -313,265 +178,7 @@ theorem sub_floor_hasVal {s : Bool} {m : Nat} {e : Int} (hc : Canon (fin s m e))
   obtain ⟨sR, mR, eR, hR, -, hvR⟩ := this
   exact ⟨sR, mR, eR, hR, hvR⟩
 
-/-! ### the test `|f − floor f| < EPSILON` and `from_float` itself -/
-
-theorem epsilon_hasVal : HasVal epsilon ((pow2 (-52 - eMin) : Nat) : Int) eMin := by
-  unfold epsilon; rw [hasVal_fin]; decide +kernel
-
-theorem lt_fin_eq_ocmp (s1 : Bool) (m1 : Nat) (e1 : Int) (s2 : Bool) (m2 : Nat) (e2 : Int) :
-    F64.lt (fin s1 m1 e1) (fin s2 m2 e2) = (ocmp (fin s1 m1 e1) (fin s2 m2 e2) == .lt) := by
-  simp [F64.lt, pcmp, ocmp]
-
-/-- the fractional part is below `f64::EPSILON = 2^-52` -/
-def fracSmall (s : Bool) (m : Nat) (e : Int) : Bool :=
-  decide (fracNum s m e * pow2 (e - eMin) < pow2 (-52 - eMin))
-
-theorem frac_test {s : Bool} {m : Nat} {e : Int} (hc : Canon (fin s m e)) (he : e < 0)
-    (hk : fracNum s m e < two53) :
-    F64.lt (F64.abs (sub (fin s m e) (floor (fin s m e)))) epsilon = fracSmall s m e := by
-  obtain ⟨sR, mR, eR, hR, hvR⟩ := sub_floor_hasVal hc he hk
-  rw [hR]
-  have hnn : (0 : Int) ≤ (fracNum s m e : Nat) * (pow2 (e - eMin) : Nat) :=
-    Int.mul_nonneg (by omega) (by omega)
-  have hv := hasVal_abs hvR hnn
-  show F64.lt (fin false mR eR) (fin false two52 (-104)) = _
-  rw [lt_fin_eq_ocmp]
-  have := ocmp_of_hasVal hv epsilon_hasVal
-  unfold epsilon at this
-  rw [this, fracSmall, Bool.eq_iff_iff]
-  simp only [beq_iff_eq, decide_eq_true_eq]
-  rw [Int.compare_eq_lt, ← Int.natCast_mul, Int.ofNat_lt]
-
-theorem sub_self_fin (s : Bool) (m : Nat) (e : Int) :
-    sub (fin s m e) (fin s m e) = fin false 0 eMin := by
-  show add (fin s m e) (fin (!s) m e) = _
-  unfold add
-  simp only [Int.min_self, Int.sub_self, pow2_zero, smant_not]
-  have : smant s m * ((1 : Nat) : Int) + -smant s m * ((1 : Nat) : Int) = 0 := by omega
-  rw [this]
-  cases s <;> simp [roundInt]
-
-theorem zero_lt_epsilon : F64.lt (F64.abs (fin false 0 eMin)) epsilon = true := by decide +kernel
-
-/-- `from_float` on a double with non-negative exponent (an integer ≥ 2^52 in magnitude, or 0):
-always the saturating cast -/
-theorem fromFloat_of_nonneg_exp (s : Bool) (m : Nat) (e : Int) (he : 0 ≤ e) :
-    Value.fromFloat (fin s m e) = .int (toI64 (fin s m e)) := by
-  unfold Value.fromFloat
-  have : floor (fin s m e) = fin s m e := by simp only [floor]; rw [if_pos (by omega)]
-  rw [this, sub_self_fin, zero_lt_epsilon]; rfl
-
-/-- `from_float` on a canonical double with negative exponent whose fractional numerator fits
-53 bits (always when `f ≥ 0` or `|f| ≥ 2^-1`…): it returns the `Int` cast exactly when the
-fractional part is below 2^-52, the double itself otherwise -/
-theorem fromFloat_of_neg_exp {s : Bool} {m : Nat} {e : Int} (hc : Canon (fin s m e)) (he : e < 0)
-    (hk : fracNum s m e < two53) :
-    Value.fromFloat (fin s m e) =
-      if fracSmall s m e then .int (toI64 (fin s m e)) else .float (fin s m e) := by
-  unfold Value.fromFloat
-  rw [frac_test hc he hk]
-
-/-! ### the remaining case: `-1 < f < 0` so small that `1 - |f|` is not a double -/
-
-theorem le_divRoundEven (a b : Nat) : a / b ≤ divRoundEven a b := by
-  unfold divRoundEven
-  simp only
-  split
-  · exact Nat.le_refl _
-  · split
-    · omega
-    · split <;> omega
-
-/-- rounding a value in `[1/2, 1)` given with many bits: the result is still at least `1/2` -/
-theorem roundRat_ge_half (n j : Nat) (hj : 1 ≤ j) (h1 : 2 ^ (j + 52) ≤ n) (h2 : n < 2 ^ (j + 53)) :
-    ∃ m' e', roundRat false n 1 (-((j : Int) + 53)) = fin false m' e' ∧ two52 ≤ m' ∧ -53 ≤ e' := by
-  have hn : n ≠ 0 := by
-    have := Nat.two_pow_pos (j + 52); omega
-  have hlog : n.log2 = j + 52 := (Nat.log2_eq_iff hn).2 ⟨h1, h2⟩
-  have hlog1 : ((1 : Nat).log2 : Int) = 0 := by decide
-  rw [roundRat_eq false n 1 _ hn, hlog, hlog1]
-  have he0 : ((j + 52 : Nat) : Int) - 0 + -((j : Int) + 53) - 52 = -53 := by omega
-  rw [he0]
-  have hmant : mantAt n 1 (-((j : Int) + 53)) (-53) = (n, 2 ^ j) := by
-    unfold mantAt
-    rw [if_neg (by omega)]
-    have : -(-((j : Int) + 53) - -53) = (j : Int) := by omega
-    rw [this, pow2_natCast, Nat.one_mul]
-  have hq1 : two52 ≤ n / 2 ^ j := by
-    rw [Nat.le_div_iff_mul_le (Nat.two_pow_pos _), two52_eq, ← Nat.pow_add, Nat.add_comm]; exact h1
-  have hq2 : n / 2 ^ j < two53 := by
-    rw [Nat.div_lt_iff_lt_mul (Nat.two_pow_pos _), two53_eq, ← Nat.pow_add, Nat.add_comm]; exact h2
-  have hfix : fixExp n 1 (-((j : Int) + 53)) (-53) = -53 := by
-    rw [fixExp_eq, hmant]
-    simp only
-    rw [if_neg (by omega), if_neg (by omega)]
-  rw [hfix]
-  have hcl : clampMin (-53) = -53 := by decide
-  rw [hcl, finishAt_eq, hmant]
-  simp only
-  have hge := le_divRoundEven n (2 ^ j)
-  split
-  · rename_i hbig
-    rw [if_neg (by decide)]
-    refine ⟨_, _, rfl, ?_, by decide⟩
-    have : two53 = 2 * two52 := by decide
-    omega
-  · rw [if_neg (by decide)]
-    exact ⟨_, _, rfl, by omega, by decide⟩
-theorem negOne_round : roundInt (-1) 0 true = fin true two52 (-52) := by decide
-
-/-- arithmetic facts in the tiny-negative case -/
-theorem neg_tiny_facts {m : Nat} {e : Int} (hm : m < two53) (he : e < 0)
-    (hk : two53 ≤ fracNum true m e) :
-    ∃ j : Nat, 1 ≤ j ∧ e = -((j : Int) + 53) ∧ m ≠ 0 ∧ m % pow2 (-e) = m ∧ m < pow2 (-e) ∧
-      2 ^ (j + 52) ≤ pow2 (-e) - m ∧ pow2 (-e) - m < 2 ^ (j + 53) := by
-  have hlt := fracNum_lt true m e
-  have he53 : e < -53 := by
-    apply Int.lt_of_not_ge
-    intro hge
-    have h1 : pow2 (-e) ≤ pow2 53 := pow2_le_pow2 (by omega)
-    have h53 : pow2 53 = two53 := by decide
-    rw [h53] at h1
-    omega
-  obtain ⟨j, hj⟩ : ∃ j : Nat, -e = (j : Int) + 53 := ⟨(-e - 53).toNat, by omega⟩
-  have hj1 : 1 ≤ j := by omega
-  have hd : pow2 (-e) = 2 ^ (j + 53) := by
-    have : (j : Int) + 53 = ((j + 53 : Nat) : Int) := by omega
-    rw [hj, this, pow2_natCast]
-  have h53le : two53 ≤ 2 ^ (j + 52) := by
-    rw [two53_eq]; exact Nat.pow_le_pow_right (by decide) (by omega)
-  have hdd : 2 ^ (j + 53) = 2 * 2 ^ (j + 52) := by
-    rw [show j + 53 = (j + 52) + 1 from rfl, Nat.pow_succ, Nat.mul_comm]
-  have hm0 : m ≠ 0 := by
-    intro h0
-    have h1 : fracNum true m e = 0 := (fracNum_eq_zero_iff true m e).2 (by rw [h0]; simp)
-    have h2 : 0 < two53 := by decide
-    omega
-  refine ⟨j, hj1, by omega, hm0, ?_, ?_, ?_, ?_⟩ <;> rw [hd] at * <;>
-    generalize 2 ^ (j + 53) = D at * <;> generalize 2 ^ (j + 52) = P at *
-  · exact Nat.mod_eq_of_lt (by omega)
-  · omega
-  · omega
-  · omega
-
-theorem sub_neg_tiny {m : Nat} {e : Int} {j : Nat} (hj : e = -((j : Int) + 53))
-    (hmD : m < pow2 (-e)) :
-    sub (fin true m e) (fin true two52 (-52)) = roundRat false (pow2 (-e) - m) 1 e := by
-  simp only [sub, neg, Bool.not_true]
-  unfold add
-  have hmin : min e (-52) = e := by omega
-  simp only [hmin, Int.sub_self, pow2_zero, smant_true, smant_false]
-  have hp : two52 * pow2 (-52 - e) = pow2 (-e) := by
-    have h52 : pow2 52 = two52 := by decide
-    have hnn : (0 : Int) ≤ -52 - e := by omega
-    rw [← h52, ← pow2_add (a := 52) (b := -52 - e) (by decide) hnn]; congr 1; omega
-  have hp' : (two52 : Int) * ((pow2 (-52 - e) : Nat) : Int) = ((pow2 (-e) : Nat) : Int) := by
-    rw [← Int.natCast_mul, hp]
-  rw [hp']
-  generalize pow2 (-e) = D at *
-  have hk' : -(m : Int) * ((1 : Nat) : Int) + (D : Int) = ((D - m : Nat) : Int) := by omega
-  rw [hk']
-  unfold roundInt
-  have hne : ((D - m : Nat) : Int) ≠ 0 := by omega
-  rw [if_neg hne]
-  have hneg : decide (((D - m : Nat) : Int) < 0) = false := by
-    simp only [decide_eq_false_iff_not]; omega
-  rw [hneg, Int.natAbs_natCast]
-
-theorem ge_half_not_lt_epsilon {m' : Nat} {e' : Int} (hm' : two52 ≤ m') (he' : -53 ≤ e') :
-    F64.lt (F64.abs (fin false m' e')) epsilon = false := by
-  show F64.lt (fin false m' e') (fin false two52 (-104)) = false
-  rw [lt_fin_eq_ocmp, ocmp_fin, cmpFin_scale _ _ _ _ _ _ (-104) (by omega) (by omega)]
-  unfold scaled
-  simp only [smant_false, Int.sub_self, pow2_zero]
-  have h1 : (1 : Int) ≤ ((pow2 (e' - -104) : Nat) : Int) := by
-    have := pow2_pos (e' - -104); omega
-  have h2 : (two52 : Int) ≤ (m' : Int) := by omega
-  have h3 : (two52 : Int) * ((1 : Nat) : Int) ≤ (m' : Int) * ((pow2 (e' - -104) : Nat) : Int) := by
-    calc (two52 : Int) * ((1 : Nat) : Int) = (two52 : Int) * 1 := by simp
-      _ ≤ (m' : Int) * ((pow2 (e' - -104) : Nat) : Int) :=
-          Int.mul_le_mul h2 h1 (by decide) (by omega)
-  rw [beq_eq_false_iff_ne]
-  intro hcmp
-  rw [Int.compare_eq_lt] at hcmp
-  omega
-
-theorem fromFloat_neg_tiny {m : Nat} {e : Int} (hc : Canon (fin true m e)) (he : e < 0)
-    (hk : two53 ≤ fracNum true m e) :
-    Value.fromFloat (fin true m e) = .float (fin true m e) := by
-  rw [canon_fin] at hc
-  obtain ⟨j, hj1, hj, hm0, hmd, hmD, hlo, hhi⟩ := neg_tiny_facts hc.1 he hk
-  have hfloorInt : floorInt true m e = -1 := by
-    unfold floorInt
-    rw [if_neg (by omega)]
-    simp only [if_true]
-    rw [ceilDiv_cases m _ (pow2_pos _), hmd, if_neg hm0, Nat.div_eq_of_lt hmD]
-    rfl
-  have hfl : floor (fin true m e) = roundInt (floorInt true m e) 0 true := by
-    simp only [floor]; rw [if_neg (by omega)]
-  have hfloor : floor (fin true m e) = fin true two52 (-52) := by
-    rw [hfl, hfloorInt, negOne_round]
-  obtain ⟨m', e', hR, hm', he'⟩ := roundRat_ge_half (pow2 (-e) - m) j hj1 hlo hhi
-  unfold Value.fromFloat
-  rw [← hj] at hR
-  rw [hfloor, sub_neg_tiny hj hmD, hR, ge_half_not_lt_epsilon hm' he']
-  rfl
-
-/-! ### complete description of `from_float` on canonical finite doubles -/
-
-theorem fracNum_false_lt {m : Nat} (e : Int) (hm : m < two53) : fracNum false m e < two53 := by
-  unfold fracNum
-  simp only [Bool.false_eq_true, if_false]
-  exact Nat.lt_of_le_of_lt (Nat.mod_le _ _) hm
-
-theorem pow2_1022 : pow2 (-52 - eMin) = 2 ^ 1022 := by decide +kernel
-
-theorem fracSmall_of_zero {s : Bool} {m : Nat} {e : Int} (h : fracNum s m e = 0) :
-    fracSmall s m e = true := by
-  unfold fracSmall
-  rw [h, Nat.zero_mul, decide_eq_true_eq]
-  exact pow2_pos _
-
-theorem fracSmall_tiny {m : Nat} {e : Int} (hc : Canon (fin true m e)) (he : e < 0)
-    (hk : two53 ≤ fracNum true m e) : fracSmall true m e = false := by
-  rw [canon_fin] at hc
-  obtain ⟨j, hj1, hj, hm0, hmd, hmD, hlo, hhi⟩ := neg_tiny_facts hc.1 he hk
-  have hfn : fracNum true m e = pow2 (-e) - m := by
-    unfold fracNum
-    simp only [if_true]
-    rw [hmd, Nat.mod_eq_of_lt (by omega)]
-  unfold fracSmall
-  rw [decide_eq_false_iff_not, hfn, pow2_1022, Nat.not_lt]
-  have hemin : eMin ≤ e := hc.2.1
-  obtain ⟨t, ht⟩ : ∃ t : Nat, e - eMin = t := ⟨(e - eMin).toNat, by omega⟩
-  rw [ht, pow2_natCast]
-  have hjt : j + 52 + t = 1073 := by simp only [eMin] at ht; omega
-  calc 2 ^ 1022 ≤ 2 ^ 1073 := Nat.pow_le_pow_right (by decide) (by decide)
-    _ = 2 ^ (j + 52) * 2 ^ t := by rw [← Nat.pow_add, hjt]
-    _ ≤ (pow2 (-e) - m) * 2 ^ t := Nat.mul_le_mul_right _ hlo
-
-/-- `from_float` returns the `Int` cast exactly when the exponent is non-negative or the
-fractional part is below 2^-52 -/
-def returnsInt (s : Bool) (m : Nat) (e : Int) : Bool := decide (0 ≤ e) || fracSmall s m e
-
-theorem fromFloat_fin {s : Bool} {m : Nat} {e : Int} (hc : Canon (fin s m e)) :
-    Value.fromFloat (fin s m e) =
-      if returnsInt s m e then .int (toI64 (fin s m e)) else .float (fin s m e) := by
-  unfold returnsInt
-  by_cases he : 0 ≤ e
-  · rw [fromFloat_of_nonneg_exp s m e he]; simp [he]
-  · have he' : e < 0 := by omega
-    have hd : decide (0 ≤ e) = false := by simp [he]
-    rw [hd, Bool.false_or]
-    by_cases hk : fracNum s m e < two53
-    · exact fromFloat_of_neg_exp hc he' hk
-    · have hs : s = true := by
-        cases s
-        · exact absurd (fracNum_false_lt e hc.1) hk
-        · rfl
-      subst hs
-      rw [fromFloat_neg_tiny hc he' (by omega), fracSmall_tiny hc he' (by omega)]
-      rfl
+/-! ### integral doubles -/
 
 theorem fractNonzero_iff (s : Bool) (m : Nat) (e : Int) :
     fractNonzero (fin s m e) = true ↔ e < 0 ∧ fracNum s m e ≠ 0 := by
@@ -584,19 +191,6 @@ theorem fractNonzero_iff (s : Bool) (m : Nat) (e : Int) :
     · intro h; exact h.2
 
 /-- on an integral double, `truncInt` is its exact value -/
-theorem truncInt_hasVal {s : Bool} {m : Nat} {e : Int} (h : fractNonzero (fin s m e) = false) :
-    HasVal (fin s m e) (truncInt s m e) 0 := by
-  rw [hasVal_fin]
-  unfold truncInt
-  by_cases he : e ≥ 0
-  · rw [if_pos he, Int.sub_zero, pow2_of_nonpos (by omega : 0 - e ≤ 0)]; simp
-  · rw [if_neg he, Int.sub_zero, pow2_of_nonpos (by omega : e ≤ 0), Int.zero_sub,
-      ← smant_mul s (m / pow2 (-e)) (pow2 (-e))]
-    simp only [fractNonzero] at h
-    rw [if_neg he] at h
-    have hmod : m % pow2 (-e) = 0 := by simpa using h
-    rw [Nat.div_mul_cancel (Nat.dvd_of_mod_eq_zero hmod)]; simp
-
 theorem toI64_fin (s : Bool) (m : Nat) (e : Int) :
     toI64 (fin s m e) = if truncInt s m e < i64Min then i64Min
       else if truncInt s m e > i64Max then i64Max else truncInt s m e := rfl
@@ -628,8 +222,6 @@ theorem val_eq_iff_hasVal (s : Bool) (m : Nat) (e k K : Int) :
   rw [this, ofIntWithPrec_inj] at h1
   exact h1.symm
 
-/-! ### when does `from_float` preserve the numeric value? -/
-
 theorem intCast_dyadic (t : Int) : (t : Dyadic) = Dyadic.ofIntWithPrec t (-0) := rfl
 
 theorem intCast_dyadic_inj {a b : Int} (h : (a : Dyadic) = (b : Dyadic)) : a = b := by
@@ -637,57 +229,96 @@ theorem intCast_dyadic_inj {a b : Int} (h : (a : Dyadic) = (b : Dyadic)) : a = b
   exact (ofIntWithPrec_inj a b (-0)).1 h
 
 /-- exact condition: the value survives `from_float` iff the double is an integer inside the
-`i64` range, or is not an integer and its fractional part is at least 2^-52 -/
-theorem fromFloat_value_iff {s : Bool} {m : Nat} {e : Int} (hc : Canon (fin s m e)) :
-    Value.num (Value.fromFloat (fin s m e)) = Value.num (.float (fin s m e)) ↔
-      (if fractNonzero (fin s m e) = true then fracSmall s m e = false
-       else Value.inI64 (truncInt s m e) = true) := by
-  rw [fromFloat_fin hc]
-  by_cases hfr : fractNonzero (fin s m e) = true
-  · rw [if_pos hfr]
-    obtain ⟨he, hfn⟩ := (fractNonzero_iff s m e).1 hfr
-    have hri : returnsInt s m e = fracSmall s m e := by
-      unfold returnsInt
-      have : decide (0 ≤ e) = false := by simp; omega
-      rw [this, Bool.false_or]
-    rw [hri]
-    cases hfs : fracSmall s m e
-    · simp
-    · simp only [if_true, Value.num, reduceCtorEq, iff_false]
-      intro h
-      rw [intCast_dyadic] at h
-      exact not_hasVal_int_of_fractNonzero hfr ((val_eq_iff_hasVal s m e _ 0).1 h.symm)
-  · rw [if_neg hfr]
-    have hfr' : fractNonzero (fin s m e) = false := by simpa using hfr
-    have hv := truncInt_hasVal hfr'
-    have hval := hasVal_val hv
-    have hri : returnsInt s m e = true := by
-      unfold returnsInt
-      by_cases he : 0 ≤ e
-      · simp [he]
-      · have : fracNum s m e = 0 := by
-          apply Classical.byContradiction
-          intro hne
-          have := (fractNonzero_iff s m e).2 ⟨by omega, hne⟩
-          rw [this] at hfr'; exact absurd hfr' (by decide)
-        rw [fracSmall_of_zero this]; simp
-    rw [hri]
-    simp only [if_true, Value.num, hval, Option.some.injEq, ← intCast_dyadic]
-    rw [toI64_fin]
-    unfold Value.inI64
-    constructor
-    · intro h
-      have h' := intCast_dyadic_inj h
-      simp only [Bool.and_eq_true, decide_eq_true_eq]
-      by_cases h1 : truncInt s m e < i64Min
-      · rw [if_pos h1] at h'; omega
-      · rw [if_neg h1] at h'
-        by_cases h2 : truncInt s m e > i64Max
-        · rw [if_pos h2] at h'; omega
-        · omega
-    · intro h
-      simp only [Bool.and_eq_true, decide_eq_true_eq] at h
-      rw [if_neg (by omega), if_neg (by omega)]
 
 end F64
+
+namespace Value
+open F64
+
+/-! ### `Value::from_float` (after the repair: an `Int` only for an integer of the i64 range) -/
+
+theorem fromFloat_fin (s : Bool) (m : Nat) (e : Int) :
+    fromFloat (fin s m e) =
+      if (!fractNonzero (fin s m e) && decide (i64Min ≤ truncInt s m e) &&
+          decide (truncInt s m e ≤ i64Max)) = true
+      then int (truncInt s m e) else float (fin s m e) := rfl
+
+/-- the double is an integer of the i64 range -/
+def isI64Valued : F64 → Bool
+  | fin s m e => !fractNonzero (fin s m e) && inI64 (truncInt s m e)
+  | _ => false
+
+theorem fromFloat_of_isI64Valued {s : Bool} {m : Nat} {e : Int}
+    (h : isI64Valued (fin s m e) = true) : fromFloat (fin s m e) = int (truncInt s m e) := by
+  rw [fromFloat_fin]
+  simp only [isI64Valued, inI64, Bool.and_eq_true, Bool.not_eq_true', decide_eq_true_eq] at h
+  rw [if_pos]
+  simp only [Bool.and_eq_true, Bool.not_eq_true', decide_eq_true_eq]
+  exact ⟨⟨h.1, h.2.1⟩, h.2.2⟩
+
+theorem fromFloat_of_not_isI64Valued {f : F64} (h : isI64Valued f = false) :
+    fromFloat f = float f := by
+  cases f with
+  | nan => rfl
+  | inf b => rfl
+  | fin s m e =>
+    rw [fromFloat_fin, if_neg]
+    intro hc
+    simp only [Bool.and_eq_true, Bool.not_eq_true', decide_eq_true_eq] at hc
+    simp only [isI64Valued, inI64, Bool.and_eq_false_iff, Bool.not_eq_false',
+      decide_eq_false_iff_not] at h
+    rcases h with h | h | h
+    · rw [hc.1.1] at h; exact absurd h (by decide)
+    · exact h hc.1.2
+    · exact h hc.2
+
+/-- `from_float` never changes the numeric value -/
+theorem num_fromFloat (f : F64) : num (fromFloat f) = num (float f) := by
+  cases hI : isI64Valued f
+  · rw [fromFloat_of_not_isI64Valued hI]
+  · cases f with
+    | nan => simp [isI64Valued] at hI
+    | inf b => simp [isI64Valued] at hI
+    | fin s m e =>
+      rw [fromFloat_of_isI64Valued hI]
+      simp only [isI64Valued, Bool.and_eq_true, Bool.not_eq_true'] at hI
+      have hv := hasVal_val (truncInt_hasVal hI.1)
+      simp only [num, hv]
+      rfl
+
+/-- it returns an `Int` exactly for the integers of the i64 range, and then that integer -/
+theorem fromFloat_eq_int_iff (f : F64) (i : Int) :
+    fromFloat f = int i ↔ isI64Valued f = true ∧ toI64 f = i := by
+  cases hI : isI64Valued f
+  · rw [fromFloat_of_not_isI64Valued hI]; simp
+  · cases f with
+    | nan => simp [isI64Valued] at hI
+    | inf b => simp [isI64Valued] at hI
+    | fin s m e =>
+      rw [fromFloat_of_isI64Valued hI, toI64_fin]
+      simp only [isI64Valued, inI64, Bool.and_eq_true, Bool.not_eq_true', decide_eq_true_eq] at hI
+      rw [if_neg (by omega), if_neg (by omega)]
+      simp
+
+/-- a `Float` it returns is the argument itself and is normalised (`normFloat`) -/
+theorem fromFloat_eq_float (f g : F64) (h : fromFloat f = float g) :
+    g = f ∧ normFloat g = true := by
+  cases hI : isI64Valued f
+  · rw [fromFloat_of_not_isI64Valued hI] at h
+    simp only [float.injEq] at h
+    subst h
+    refine ⟨rfl, ?_⟩
+    cases f with
+    | nan => rfl
+    | inf b => rfl
+    | fin s m e =>
+      simp only [isI64Valued, Bool.and_eq_false_iff, Bool.not_eq_false'] at hI
+      simp only [normFloat, Bool.or_eq_true, Bool.not_eq_true']
+      exact hI
+  · cases f with
+    | nan => simp [isI64Valued] at hI
+    | inf b => simp [isI64Valued] at hI
+    | fin s m e => rw [fromFloat_of_isI64Valued hI] at h; exact absurd h (by simp)
+
+end Value
 end Ag
